@@ -113,6 +113,10 @@ int main(int argc, char** argv) {
    const char ra[] = {'-', '=', '(', ')', '!', ',', 'a', 'v', 'x', '1'};
    std::vector<std::string> raw1, raw2, raw3;
    for (char c0 : ra) { raw1.push_back(std::string(1, c0)); for (char c1 : ra) { raw2.push_back(std::string{c0, c1}); for (char c2 : ra) raw3.push_back(std::string{c0, c1, c2}); } }
+   std::vector<std::string> raw12_basic = raw1; raw12_basic.insert(raw12_basic.end(), raw2.begin(), raw2.end());       // 110 words over the 10 basic characters (lines of 3 words)
+   // words of 1 and 2 characters additionally over a blank and a byte >= 0x80 ("any bytes")
+   { const char extra[] = {' ', char(0xff)}; std::vector<char> all(ra, ra + sizeof ra); all.insert(all.end(), extra, extra + 2);
+     for (char e : extra) { raw1.push_back(std::string(1, e)); for (char c : all) { raw2.push_back(std::string{e, c}); if (c != ' ' && c != char(0xff)) raw2.push_back(std::string{c, e}); } } }
    std::vector<std::string> raw12 = raw1; raw12.insert(raw12.end(), raw2.begin(), raw2.end());
    std::vector<std::string> raw123 = raw12; raw123.insert(raw123.end(), raw3.begin(), raw3.end());
    for (auto& w0 : raw123) {        // case = first word; lines [w0] and [w0, w1] for all w1
@@ -122,7 +126,7 @@ int main(int argc, char** argv) {
       vf::nontrivial_by_construction();
       if (vf::deadline_hit()) break;
    }
-   if (th) for (auto& w0 : raw12) { if (!vf::want_case()) continue; for (auto& w1 : raw12) for (auto& w2 : raw12) all_modes({w0, w1, w2}, "raw3"); vf::nontrivial_by_construction(); if (vf::deadline_hit()) break; }
+   if (th) for (auto& w0 : raw12_basic) { if (!vf::want_case()) continue; for (auto& w1 : raw12_basic) for (auto& w2 : raw12_basic) all_modes({w0, w1, w2}, "raw3"); vf::nontrivial_by_construction(); if (vf::deadline_hit()) break; }
    // ---- (b) tokens
    const std::vector<std::string> tok = {"-a", "-b", "-ab", "-ba", "--bee", "-v", "-v5", "--value", "--value=5", "--value=", "--val", "--=v", "--", "-", "", "5", "x", "-5", "1,2", "1,,2", ",", "-l", "--list=1,2", "-l1", "-t", "1,x", "-r", "-B", "9",
                                          "-V", "12", "-D", "-k", "a,1", "-L", "-LL", "-c", "-C", "-g", "-x", "-y", "(", ")", "!", "--cmd", "-h", "--help", "--help-arg=v", "--help-arg", "--list-arg-vars", "--endvalues", "--arg-file", "-s", "--str=-s", "-abv", "-abv5", "-ab-v", "-ab--value=5", "-a=b", "-o"};
